@@ -22,7 +22,13 @@ def mc_step(work, module, cfg, workers=8, timeout=900, xmx="6g", extra=(), scope
             c = f.read()
         with open(work.path(cfg), "w") as f:
             f.write(re.sub(r"Scope = \d+", "Scope = %d" % scope, c))
-    r = vlib.tlc_run(work.dir, module, work.path(cfg), workers=workers, timeout=timeout, xmx=xmx, extra=extra)
+    # LazyValue caching is not safe with several workers (sporadic "unexpected exception"): switched off
+    r = vlib.tlc_run(work.dir, module, work.path(cfg), workers=workers, timeout=timeout, xmx=xmx, extra=extra,
+                     jextra=("-Dtlc2.value.impl.LazyValue.off=true",))
+    if r["rc"] != 0 and "is violated" not in r["out"]:
+        # TLC's multi-worker evaluation occasionally throws on lazily evaluated LET values: repeat single-threaded
+        log("model run of %s failed without a verdict (rc=%s); repeating with one worker" % (module, r["rc"]))
+        r = vlib.tlc_run(work.dir, module, work.path(cfg), workers=1, timeout=timeout * 3, xmx=xmx, extra=extra)
     if r["rc"] != 0:
         raise Infra("model %s/%s did not pass (rc=%s):\n%s" % (module, cfg, r["rc"], r["out"][-3000:]))
     return {"module": module, "cfg": cfg, "states": r["distinct"], "transitions": r["generated"], "wall_s": round(r["wall"], 1)}
@@ -137,10 +143,14 @@ def run_campaign(prop, check, scenarios, seed, work, binp, module="ResponderTrac
     tot = {"events": 0, "exercised": 0, "accepted": 0, "states": 0, "generated": 0}
     viol = []
     known = []
+    nconf = 0
     for stats, bad in results:
         for k in tot:
             tot[k] += stats[k]
         for sc, why in bad:
+            if nconf >= 8:        # enough confirmed violations to act on; the rest are not re-run
+                continue
+            nconf += 1
             again, why2 = confirm(work, binp, check, sc, module)
             if not again:
                 raise Infra("rejection of scenario %s did not repeat when run alone (%s)" % (sc.name, why))
